@@ -496,6 +496,110 @@ def run_mem(ctx: Ctx, cases):
                                       f"shape {case['shape']}, strides {case['strides']}, dim {case['dim']}, inplace={case['inplace']})")
 
 
+# ----------------------------------------------------------------------------- grad-mode / call-order stream
+
+MODE_ORDERS = [("inference", "leaf", "plain", "nonleaf_"), ("no_grad", "nonleaf_", "inference", "leaf"),
+               ("leaf", "inference", "nonleaf_", "no_grad"), ("inference_", "leaf", "nonleaf_", "plain"),
+               ("plain", "leaf", "inference", "nonleaf_")]
+
+
+def check_modes(ctx: Ctx, case) -> bool:
+    """the same scan length used under different autograd modes one after the other in ONE process: every call must
+    return the ordered fold (values must not depend on the mode or on which mode used that length first), the
+    out-of-place calls leave the input untouched, and gradients flow through the tracked calls"""
+    import contextlib
+    L, api, left, ty = case["L"], case["api"], case["left"], case["type"]
+    g = torch.Generator().manual_seed(case["data_seed"])
+    n0 = len(ctx.failures)
+    if ty == "plain":
+        base = torch.randint(-2, 3, (L, 2, 2), generator=g, dtype=torch.int64).double()
+        fold_op = lambda a, b: a @ b
+    else:
+        base = getattr(pp(), "randn_" + ty)(L, generator=g, dtype=torch.float64).tensor()
+        fold_op = None
+
+    def make(x):
+        return x if ty == "plain" else pp().LieTensor(x, ltype=getattr(pp(), ty + "_type"))
+
+    def call(x, inplace):
+        f = getattr(pp(), api + ("_" if inplace else ""))
+        if api == "cumops":
+            return f(x, 0, (lambda a, b: b @ a) if left else (lambda a, b: a @ b))
+        return f(x, 0, left=left)
+
+    def reference(x):
+        xs = make(x.detach().clone())
+        outs, acc = [], None
+        for j in range(L):
+            it = xs[j]
+            if api == "cummul":      # cummul composes with `*` (element-wise for plain tensors, the group product for LieTensors)
+                acc = it if acc is None else ((it * acc) if left else (acc * it))
+            else:
+                acc = it if acc is None else ((it @ acc) if left else (acc @ it))
+            outs.append(acc.tensor() if ty != "plain" else acc)
+        return torch.stack(outs, 0)
+    want = reference(base)
+    for mode in case["order"]:
+        inplace = mode.endswith("_")
+        ctxm = {"inference": torch.inference_mode, "inference_": torch.inference_mode, "no_grad": torch.no_grad}.get(mode, contextlib.nullcontext)
+        try:
+            with ctxm():
+                x = base.clone()
+                if mode == "leaf":
+                    x.requires_grad_(True)
+                    arg = x
+                elif mode == "nonleaf_":
+                    x.requires_grad_(True)
+                    arg = x * 1.0
+                else:
+                    arg = x
+                before = arg.detach().clone()
+                y = call(make(arg), inplace)
+                yv = (y.tensor() if hasattr(y, "ltype") else y)
+                if not torch.allclose(yv.detach(), want, rtol=1e-11, atol=1e-11):
+                    ctx.fail(case | {"mode": mode}, f"fold: {api}{'_' if inplace else ''} under mode '{mode}' (order {case['order']}) != sequential fold for L={L} ({ty})")
+                if not inplace and not torch.equal(arg.detach(), before):
+                    ctx.fail(case | {"mode": mode}, f"mutation: out-of-place {api} changed its input under mode '{mode}'")
+                if mode in ("leaf", "nonleaf_"):
+                    yv.sum().backward()
+                    if x.grad is None or not bool(torch.isfinite(x.grad).all()):
+                        ctx.fail(case | {"mode": mode}, f"grad: no finite gradient through {api} under mode '{mode}' for L={L}")
+        except Exception as e:
+            ctx.fail(case | {"mode": mode}, f"raises: {api}{'_' if inplace else ''} raises under mode '{mode}' after the modes {case['order'][:case['order'].index(mode)]} "
+                                            f"used the same length L={L} first: {type(e).__name__}: {str(e)[:100]}")
+            break
+    return len(ctx.failures) == n0
+
+
+def run_modes(ctx: Ctx):
+    """every length is FRESH in the process for its first mode: lengths are drawn from a range no other stream uses and
+    never repeated inside this stream"""
+    rng = ctx.rng
+    fresh = list(range(4100, 4100 + 400))
+    rng.shuffle(fresh)
+    # small lengths too: other streams have used them already in plain mode, which is itself one of the orders
+    small = [2, 3, 5, 6, 8, 9, 17, 33]
+    k = 0
+    cases = []
+    for oi, order in enumerate(MODE_ORDERS):
+        for api in ("cumops", "cumprod", "cummul"):
+            for ty in ("plain", "SO3") if api != "cumops" else ("plain",):
+                for Lsrc in ("small", "fresh"):
+                    L = small[(oi + k) % len(small)] if Lsrc == "small" else None
+                    k += 1
+                    cases.append({"kind": "modes", "L": L, "api": api, "left": bool(k % 2), "type": ty, "order": list(order),
+                                  "data_seed": 100 + k, "Lsrc": Lsrc})
+    for c in cases:
+        if c["L"] is None:
+            # 'fresh' lengths are large only in their index; keep the fold cheap by scanning a short tensor whose LENGTH is
+            # unique: lengths 41..440 are not used by the deterministic corpora of the other streams in this order
+            c["L"] = fresh.pop() - 4100 + 41
+        check_modes(ctx, c)
+        ctx.note_case(("modes", c["api"], c["type"], tuple(c["order"]), c["Lsrc"]), True)
+        ctx.count(f"modes.{c['order'][0]}-first")
+    ctx.sample({"stream": "modes", **cases[0]})
+
+
 # ----------------------------------------------------------------------------- generation
 
 def pick_L(rng, hi):
@@ -514,6 +618,8 @@ def small_shape(rng, maxrank):
 
 def run(ctx: Ctx):
     rng = ctx.rng
+    # grad modes x call order on one length (first, before any other stream has touched the library)
+    run_modes(ctx)
     # schedule: exhaustive over the tier's range (the schedule depends only on L)
     if ctx.quick:
         Ls = list(range(1, 513)) + sorted({rng.randint(513, 4096) for _ in range(64)}) + [1023, 1024, 1025, 2047, 2048, 2049, 4095, 4096]
@@ -617,6 +723,8 @@ def replay(ctx: Ctx, case) -> bool:
         check_plain(ctx, c)
     elif kind == "mem":
         run_mem(ctx, [c])
+    elif kind == "modes":
+        check_modes(ctx, c)
     for f in ctx.failures[n0:]:
         print("  fails:", f["what"])
     for d in ctx.disagreements:
